@@ -197,7 +197,7 @@ def r_ctors(sh, rep):
     # answered from it either. Every atom must be an equality of the type's module with self.current_module.
     lets = {}
     for n in walk(g["body"]):
-        if n.get("k") == "Let" and isinstance(n.get("pat"), dict) and n["pat"].get("k") == "Ident" and n.get("init") is not None:
+        if n.get("k") == "Local" and isinstance(n.get("pat"), dict) and n["pat"].get("k") == "Ident" and n.get("init") is not None:
             lets.setdefault(n["pat"]["name"], n["init"])
     norm_atoms = []
     for a in atoms:
